@@ -51,6 +51,7 @@ static std::vector<std::string> transcript(const Api& a, const Case& c, Info* in
         { auto t = comp; t[(uint8_t)mut[5] % 16] = "\xc3\xa9t\xc3\xa9"; inputs.push_back({"foreign-word", lib::join(t)}); }
         { auto t = comp; t.pop_back(); inputs.push_back({"15-words-nbsp", lib::join(t, "\xc2\xa0")}); }
     }
+    inputs.push_back({"bom-prefixed", "\xef\xbb\xbf" + phrase}); inputs.push_back({"zwsp-prefixed", "\xe2\x80\x8b" + model::nfkd(phrase)}); inputs.push_back({"nbsp-suffixed", phrase + "\xc2\xa0"});
     inputs.push_back({"raw", c.bytes("raw").substr(0, c.bytes("raw").find('\0'))});
     for (auto& in : inputs) {
         for (unsigned char ch : in.second) if (ch >= 0x80) info->nonascii = true;
@@ -89,7 +90,7 @@ static void run() {
         Case c; c.set("secret", hex(*g::secret19())); c.set("birthday", (uint64_t)*g::birthday()); c.set("ufeat", *in_range<unsigned>(0, 8)); c.set("coin", (uint64_t)*g::coin());
         c.set("lang", *rc::gen::weightedOneOf<std::string>({{3, rc::gen::map(g::lang_index(), [&](int i) { return REG.at(i).name_en; })}, {3, rc::gen::element<std::string>("Spanish", "French", "Japanese", "Korean", "Chinese (Simplified)", "Chinese (Traditional)")}}));
         c.set("lang2", REG.at(*g::lang_index()).name_en); c.set("mut", hex(*vf::bytes(8))); c.set("lenient", *in_range<unsigned>(0, 2));
-        c.set("pw", hex(*rc::gen::element<std::string>("contrase\xc3\xb1""a", "contrasen\xcc\x83""a", "\xe3\x83\x91\xe3\x82\xb9\xe3\x83\xaf\xe3\x83\xbc\xe3\x83\x89", "\xeb\xb9\x84\xeb\xb0\x80\xeb\xb2\x88\xed\x98\xb8", "mot de passe \xc3\xa9t\xc3\xa9", "plain ascii", "\xef\xac\x81\xef\xbc\xa1", "")));
+        c.set("pw", hex(*rc::gen::element<std::string>("contrase\xc3\xb1""a", "contrasen\xcc\x83""a", "\xe3\x83\x91\xe3\x82\xb9\xe3\x83\xaf\xe3\x83\xbc\xe3\x83\x89", "\xeb\xb9\x84\xeb\xb0\x80\xeb\xb2\x88\xed\x98\xb8", "mot de passe \xc3\xa9t\xc3\xa9", "plain ascii", "\xef\xac\x81\xef\xbc\xa1", "", "\xef\xbb\xbfpassword", "pass\xc2\xadword\xe2\x80\x8b", "\xc2\xb2\xc2\xbd")));
         auto raw = *rc::gen::container<std::vector<uint8_t>>(rc::gen::weightedOneOf<uint8_t>({{3, rc::gen::inRange<uint8_t>(0x20, 0x7F)}, {2, rc::gen::inRange<uint8_t>(0x80, 0xFF)}, {1, rc::gen::just<uint8_t>(0x20)}})); c.set("raw", hex(raw));
         set_current(c); std::string m = oracle(c); if (!m.empty()) VF_FAIL(c, m);
     });
